@@ -69,8 +69,18 @@ func (fr *Frame) step(st *State, ins ssa.Instruction) {
 					if !i.IsAddr {
 						fr.srcTypes[id.Name] = i.X.Type()
 					}
-					st.srcVar[id.Name] = val
-					st.srcAdr[id.Name] = i.IsAddr
+					keep := false
+					if !i.IsAddr && st.srcAdr[id.Name] {
+						// the variable lives in memory (its address is taken later): the name keeps denoting
+						// the cell, not the value first stored into it
+						if pv, isP := st.srcVar[id.Name].(*PtrV); isP && pv.Obj != nil && v.localNames[pv.Obj] == id.Name {
+							keep = true
+						}
+					}
+					if !keep {
+						st.srcVar[id.Name] = val
+						st.srcAdr[id.Name] = i.IsAddr
+					}
 					if fr.lhsIdent[id.Pos()] {
 						fr.anchor(st, "def", id.Name, -1)
 					}
@@ -297,7 +307,15 @@ func (fr *Frame) indexAddrV(st *State, x Value, idx *Term) Value {
 		}
 		return &PtrV{Obj: a.Obj, Path: append(append([]PE(nil), a.Path...), pe)}
 	case *IteV:
-		return &IteV{C: a.C, A: fr.indexAddrV(st, a.A, idx), B: fr.indexAddrV(st, a.B, idx)}
+		// each alternative is indexed under its own condition (the bounds obligation of one alternative
+		// must not be demanded when the other one is the actual value)
+		saved := st.pc
+		st.pc = F.And(saved, a.C)
+		va := fr.indexAddrV(st, a.A, idx)
+		st.pc = F.And(saved, F.Not(a.C))
+		vb := fr.indexAddrV(st, a.B, idx)
+		st.pc = saved
+		return &IteV{C: a.C, A: va, B: vb}
 	}
 	unsup("indexaddr of %T", x)
 	return nil
